@@ -46,7 +46,7 @@ func runNum() {
 	for x := int64(0); x <= B; x++ {
 		for y := int64(0); y <= B; y++ {
 			sel := int(x*3 + y)
-			cx, cy := capOf(x, sel), capOf(y, sel/2)
+			cx, cy := capNT(x, sel), capNT(y, sel/2)
 			ev := map[string]any{"x": x, "cx": cx, "y": y, "cy": cy}
 			safely("N.bin", ev, func() {
 				a, b := nN(x, cx), nN(y, cy)
@@ -79,7 +79,7 @@ func runNum() {
 		}
 	}
 	for x := int64(0); x <= 30*B; x++ {
-		cx := capOf(x, int(x))
+		cx := capNT(x, int(x))
 		a := nN(x, cx)
 		ev := map[string]any{"x": x, "cx": cx}
 		sq, err := a.Sqrt()
@@ -98,16 +98,16 @@ func runNum() {
 		optN(ev, "frombig", fb, err)
 		fbb, err := num.N().FromBytes(bi(x).Bytes())
 		optN(ev, "frombytes", fbb, err)
-		fi, err := num.N().FromInt(nZ(x-10*B, capOf(x-10*B, int(x))))
+		fi, err := num.N().FromInt(nZ(x-10*B, capNT(x-10*B, int(x))))
 		optN(ev, "fromint", fi, err)
-		ev["fromintarg"] = trunc(x-10*B, capOf(x-10*B, int(x)))
+		ev["fromintarg"] = trunc(x-10*B, capNT(x-10*B, int(x)))
 		emit("N.un", ev)
 	}
 	// ---------------- Z
 	for x := -B; x <= B; x++ {
 		for y := -B; y <= B; y++ {
 			sel := int(x*3+y) + 300
-			cx, cy := capOf(x, sel), capOf(y, sel/2)
+			cx, cy := capNT(x, sel), capNT(y, sel/2)
 			ev := map[string]any{"x": x, "cx": cx, "y": y, "cy": cy}
 			safely("Z.bin", ev, func() {
 				a, b := nZ(x, cx), nZ(y, cy)
@@ -139,7 +139,7 @@ func runNum() {
 		}
 	}
 	for x := -15 * B; x <= 15*B; x++ {
-		cx := capOf(x, int(x)+1000)
+		cx := capNT(x, int(x)+1000)
 		a := nZ(x, cx)
 		ev := map[string]any{"x": x, "cx": cx}
 		iv, err := a.TryInv()
@@ -182,7 +182,7 @@ func runNum() {
 		ev := map[string]any{"x": x}
 		p, err := num.NPlus().FromUint64(uint64(x))
 		optN(ev, "new", p, err)
-		p2, err := num.NPlus().FromNat(nN(x, capOf(x, int(x))))
+		p2, err := num.NPlus().FromNat(nN(x, capNT(x, int(x))))
 		optN(ev, "fromnat", p2, err)
 		p3, err := num.NPlus().FromInt(nZ(x-10*B, 20))
 		optN(ev, "fromint", p3, err)
@@ -229,9 +229,9 @@ func runNum() {
 				sy, err := num.Z().FromUintSymmetric(u)
 				optN(ev, "sym", sy, err)
 				if x >= 0 {
-					fr, err := zn.FromNatCTReduced(natc(x, capOf(x, int(x))))
+					fr, err := zn.FromNatCTReduced(natc(x, capNT(x, int(x))))
 					optN(ev, "reduced", fr, err)
-					ev["reducedarg"] = trunc(x, capOf(x, int(x)))
+					ev["reducedarg"] = trunc(x, capNT(x, int(x)))
 				} else {
 					ev["reducedok"], ev["reduced"], ev["reducedarg"] = false, 0, m
 				}
@@ -289,7 +289,7 @@ func runNum() {
 func runRat() {
 	B := box
 	mk := func(a, b int64) *num.Rat {
-		r, err := num.Q().New(nZ(a, capOf(a, int(a+b)+50)), nP(b))
+		r, err := num.Q().New(nZ(a, capNT(a, int(a+b)+50)), nP(b))
 		if err != nil {
 			panic(err)
 		}
